@@ -421,6 +421,11 @@ where
             (true, Some(snapshot_path)) => {
                 vfs::remove_file(snapshot_path).await?;
             }
+            // No snapshot is created for an empty event log
+            // so rollback by erasing the unverified events
+            (false, None) => {
+                rollback_completed = self.clear().await.is_ok();
+            }
             _ => {}
         }
 
